@@ -334,7 +334,8 @@ func c02synthetic(g *Gen) {
 			lines = atoms(importLines)
 			leafs := map[string]int{}
 			for _, l := range importLines {
-				p := strings.Trim(strings.Fields(l)[1], `"`)
+				fl := strings.Fields(l)
+				p := strings.Trim(fl[len(fl)-1], `"`)
 				leafs[p[strings.LastIndex(p, "/")+1:]]++
 			}
 			for leaf, c := range leafs {
@@ -363,7 +364,9 @@ func c02synthetic(g *Gen) {
 				if strings.Contains(l, `"`+out+`"`) {
 					problems = append(problems, "the output package is imported")
 				}
-				if !strings.Contains(strings.Join(rendered, " "), strings.Fields(l)[0]+".") {
+				if len(strings.Fields(l)) != 2 {
+					problems = append(problems, "import line "+l+" does not bind a local name")
+				} else if !strings.Contains(strings.Join(rendered, " "), strings.Fields(l)[0]+".") {
 					problems = append(problems, "import "+l+" is not needed by the rendered text")
 				}
 			}
